@@ -286,11 +286,13 @@ def compare_entries(got, exp, exact, what="entries"):
         if g[-1] != x[-1]:
             return f"{what}: label {g[-1]!r} != model {x[-1]!r}: got {got!r} expected {_fl(exp)!r}"
         for gv, xv in zip(g[:-1], x[:-1]):
-            if exact:
+            if exact is True:
                 if F(gv) != xv:
                     return f"{what}: time {gv!r} != model {float(xv)!r}: got {got!r} expected {_fl(exp)!r}"
             elif abs(F(gv) - xv) > F(TOL):
                 return f"{what}: time {gv!r} differs from model {float(xv)!r} by more than 1e-9: got {got!r}"
+    if exact == "loose":
+        return None  # ulp-neighbour grids under arithmetic: one-ulp gaps / intervals may legitimately close; only counts, labels, 1e-9
     if not exact and len(exp) and len(exp[0]) == 3:
         for (g1, g2), (x1, x2) in zip(zip(got, got[1:]), zip(exp, exp[1:])):
             if (x1[1] == x2[0]) != (g1[1] == g2[0]):
@@ -300,8 +302,21 @@ def compare_entries(got, exp, exact, what="entries"):
     return None
 
 
+def tiny_features(E):
+    """True if the exact model contains an interval or a gap shorter than 1e-12: float rounding may collapse it, so a
+    praatio error (refusing an interval of no length / an overlap) is a legitimate outcome there"""
+    tiny = F(1, 10 ** 12)
+    for e in E:
+        if len(e) == 3 and e[1] - e[0] < tiny:
+            return True
+    for a, b in zip(E, E[1:]):
+        if len(a) == 3 and 0 < b[0] - a[1] < tiny:
+            return True
+    return False
+
+
 def compare_num(got, exp, exact, what):
-    if exact:
+    if exact is True:
         if F(got) != exp:
             return f"{what}: {got!r} != model {float(exp)!r}"
     elif abs(F(got) - exp) > F(TOL):
